@@ -9,9 +9,9 @@ import BareModel.ExprParse
 (`C02.Printable e := printable e = true`) says for which trees that text is parsed back to the same tree by
 `ExprParse.parseExpr` (theorem `C02.parse_print` in `BareProofs/C02Print.lean`, for all printable trees of any size).
 Every condition of `printable` is forced by what `parse_expression` (parser.py) does; each one is justified where it is
-defined.  `C02.printable_core_of_parse` shows that every tree the parser returns on *any* text satisfies all of them
-except one (`bracketOk`'s "the name does not end in a backslash", see there), so the class is the parser's image up to
-that single context-dependent corner.
+defined.  `C02.parse_in_image` shows that every tree the parser returns on *any* text satisfies all of them except one
+(`bracketOk`'s "the name does not end in a backslash", see there), so the class is the parser's image up to that single
+context-dependent corner (`C02.printable_of_parse_partial`).
 
 Layout of the canonical text:
 
@@ -30,12 +30,12 @@ open ExprScan ExprParse
 
 /-! ## numbers -/
 
-def digitChar (d : Nat) : Char := Char.ofNat (48 + d)
+/-- the decimal digit character of `d < 10` (core's `Nat.digitChar`) -/
+abbrev digitChar (d : Nat) : Char := Nat.digitChar d
 
-/-- decimal digits of a natural number, most significant first, no leading zero (`0` is `"0"`) -/
-def natDigits (n : Nat) : List Char :=
-  if n < 10 then [digitChar n] else natDigits (n / 10) ++ [digitChar (n % 10)]
-decreasing_by omega
+/-- decimal digits of a natural number, most significant first, no leading zero (`0` is `"0"`): core's `Nat.toDigits 10`,
+i.e. the characters of `toString n` -/
+def natDigits (n : Nat) : List Char := Nat.toDigits 10 n
 
 /-- exactly `k` decimal digits of `x` (the `k` low-order ones), most significant first, zero-padded -/
 def fixDigits : Nat → Nat → List Char
@@ -93,12 +93,18 @@ def isIdent : List Char → Bool
   second backslash pairs with the `]` whenever another `]` follows anywhere later in the text
   (`ff([a\\], [b])` is a call with ONE argument, the variable `a\], [b`); only when no `]` follows does the engine
   backtrack and `[a\\]` (or `[a\]`) mean the name `a\`.  Such names are in the parser's image but cannot be written
-  in a context-independent way, so they are excluded here (this is the one condition `printable_core_of_parse` does
-  not give). -/
+  in a context-independent way, so they are excluded here (this is the one condition `C02.parse_in_image` does not
+  give; `bracketImg` is `bracketOk` without it). -/
 def bracketOk : List Char → Bool
   | [] => false
   | [c] => c != '\\'
   | c :: t => !isPySpace c && t.getLast? != some '\\'
+
+/-- `bracketOk` without its last condition: exactly the names `_R_EXPR_VARIABLE_EX` can yield (`C02.parse_in_image`) -/
+def bracketImg : List Char → Bool
+  | [] => false
+  | [_] => true
+  | c :: _ => !isPySpace c
 
 /-- Identifiers are `Name`s: the parser applies `Name.ofString` to the scanned text, which turns the spelling of a
 generated name (`__bareScriptIf7`) into `Name.gen`; so `Name.user "__bareScriptIf7"` is never produced, and a name is
@@ -108,6 +114,9 @@ def nameOk (n : Name) : Bool := decide (Name.ofString n.render = n)
 /-- A variable is an identifier (`null`, `true`, `false`, `if`, … included: the expression parser has no keywords, they
 all parse to `variable`) or a bracketed name. -/
 def varOk (n : Name) : Bool := nameOk n && (isIdent n.render.toList || bracketOk n.render.toList)
+
+/-- the variable names in the parser's image (`varOk` plus the bracketed names that end in a backslash) -/
+def varImg (n : Name) : Bool := nameOk n && (isIdent n.render.toList || bracketImg n.render.toList)
 
 /-- A function name must match `[A-Za-z_]\w*` of `_R_EXPR_FUNCTION_OPEN` (there is no bracketed form for calls). -/
 def fnOk (n : Name) : Bool := nameOk n && isIdent n.render.toList
@@ -140,6 +149,27 @@ end
 
 /-- the canonical text of a tree -/
 def printExpr (e : Expr) : String := String.ofList (printL e)
+
+/-! ### the same token sequence with a pad of blanks in front of every token (inhabitants of `C02.Spaced`; the
+correspondence stream sends these texts to the real parser too) -/
+
+mutual
+/-- the canonical token sequence with the pad `p` in front of *every* token -/
+def printPad (p : List Char) : Expr → List Char
+  | .number q => p ++ printNum q
+  | .string s => p ++ printStr s
+  | .variable n => p ++ printVar n
+  | .function n args => p ++ (n.render.toList ++ (p ++ '(' :: printPadArgs p args))
+  | .binary op l r => printPad p l ++ (p ++ (op.text.toList ++ printPad p r))
+  | .unary op e => p ++ (op.text.toList ++ printPad p e)
+  | .group e => p ++ '(' :: (printPad p e ++ (p ++ [')']))
+def printPadArgs (p : List Char) : List Expr → List Char
+  | [] => p ++ [')']
+  | a :: rest => printPad p a ++ printPadMore p rest
+def printPadMore (p : List Char) : List Expr → List Char
+  | [] => p ++ [')']
+  | a :: rest => p ++ ',' :: (printPad p a ++ printPadMore p rest)
+end
 
 /-- a chain operand: what `_parse_unary_expression` can return (never a bare binary node) -/
 def isOperandB : Expr → Bool
